@@ -176,14 +176,11 @@ def Productive (E : Env S) : Prop := ∀ nt, (AList.lookup nt E.G.rules).isSome 
 
 /-- **the cost invariant holds after the prologue** on a grammar flagged recursive all of whose
     non-terminals derive a program -/
-theorem prologue_cinv (E : Env S) (hnd : RowsNodup E.G) (hrec : E.recursive = true) (hprod : Productive E) (fuel : Nat) (s' : St S)
+theorem prologue_cinv (E : Env S) (hnd : RowsNodup E.G) (hst : StableAfter E) (hprod : Productive E) (fuel : Nat) (s' : St S)
     (h : prologue E fuel (St.empty E.G) = some s') : CInv E s' := by
   have hpi := prologue_pi E hnd fuel s' h
-  have hst : Stable E s' := by
-    unfold prologue at h
-    split at h
-    · cases h
-    · exact reevaluate_stable E hrec fuel _ _ h
+  have hst' : StableAfter E := hst
+  have hst : Stable E s' := hst fuel s' h
   refine cinv_base E s' (fun nt c hc => ?_) hst hpi.zero (fun nt ci p hp => ?_)
   · cases hcl : s'.clOf nt with
     | nil => rw [hcl] at hc; cases hc
@@ -197,7 +194,7 @@ theorem prologue_cinv (E : Env S) (hnd : RowsNodup E.G) (hrec : E.recursive = tr
       subst hrest
       simp only [List.mem_singleton] at hc; subst hc
       obtain ⟨t, k, hk⟩ := hprod nt (hpi.keys nt (by rw [hcl]; simp))
-      exact ((prologue_minCost E hnd hrec fuel s' h nt c [] hcl).1 t k hk).1
+      exact ((prologue_minCost E hnd hst' fuel s' h nt c [] hcl).1 t k hk).1
   · have : s'.bankAt nt ci = (St.empty E.G).bankAt nt ci := by
       unfold St.bankAt St.bankOf; rw [hpi.bank]
     rw [this] at hp
